@@ -175,15 +175,21 @@ def _load():
     from .oracles.c16 import C16, run_c16
     from . import c15
     from .oracles.c20 import C20, run_c20
+    from .refsim import Ref
 
     wide = profile()
+    # tie-free core domain of the executable reference model (cisim/refsim.py)
+    core = profile(time={"cont": 1.0}, ordinary_only=True, sched=0.0, slot=0.0, ps=0.0, zero=0.0, inf=0.1, exact=0.0, preempt=0.0, cct=0.0, spf=0.0,
+                   f_zero=0.0, tdep=0.0, plan={"time": 1.0}, splits=0, qcap=0.6, syscap=0.2, batch=0.3, baulk=0.3, renege=0.35, jockey=0.4,
+                   ccm=0.3, prio=0.5, disc=0.4, route_kinds={"matrix": 0.4, "net": 0.45, "pb": 0.15, "fpb": 0.0},
+                   policies=["uniform"], horizon=[8.0, 15.0, 30.0], disc_opts=["FIFO", "LIFO"], jsq_tb=["order"])
     NO_KFA = ("KF-B", "KF-C", "KF-D", "KF-E")     # explore the region of the open finding KF-A (pre-emptive shift end / slot x blocking)
     kfa = profile(rules=NO_KFA, sched=0.6, qcap=0.9, qcap_vals=[INF, 0, 0, 1, 2], n=[2, 2, 3], exact=0.0, ps=0.0,
                   sched_pre_opts=["resume", "restart", "resample", "reroute"], slot=0.15)
     faulty = profile(f_zero=0.8, f_infarr=0.3, f_batch0=0.8, qcap=0.7, sched=0.35, renege=0.4, batch=0.4)
     # C01's own clauses hold on the unchanged tree inside the regions of the open findings too (an engine crash there is
     # C14's matter), so C01 explores them: a third of its runs are generated without any sanitising
-    register(Profile("C01", [C01], [(2, wide), (1, faulty), (1, dict(faulty, rules=(), jockey=0.6, sched=0.4, qcap=0.8))],
+    register(Profile("C01", [C01, Ref], [(1, core), (2, wide), (1, faulty), (1, dict(faulty, rules=(), jockey=0.6, sched=0.4, qcap=0.8))],
                      "runs generated swarm-style from sub(VERIF_SEED,'C01',tier,i); distinct = distinct history digest "
                      "(events+micro-events+samples+draws+records); non-trivial = >=1 transfer between service nodes and >=1 exit",
                      B(40000, 500000)))
@@ -197,7 +203,7 @@ def _load():
 
     NOREROUTE = dict(preempt_opts=[False, "resume", "restart", "resample"],
                      sched_pre_opts=[False, False, "resume", "restart", "resample"])
-    register(Profile("C03", [C03], [(2, wide), (1, faulty), (1, profile(prio=0.8, preempt=0.8, sched=0.4, renege=0.5, jockey=0.6, qcap=0.6)), (1, kfa)],
+    register(Profile("C03", [C03, Ref], [(1, core), (2, wide), (1, faulty), (1, profile(prio=0.8, preempt=0.8, sched=0.4, renege=0.5, jockey=0.6, qcap=0.6)), (1, kfa)],
                      "distinct history digest; non-trivial = >=1 customer with >=2 records",
                      B(40000, 500000)))
     NOREROUTE = dict(preempt_opts=[False, "resume", "restart", "resample"],
@@ -207,23 +213,23 @@ def _load():
                                                           sched_pre_opts=[False], n=[1, 2, 3], splits=3, plan={"time": 1.0}))],
                      "distinct history digest; non-trivial = some server served >=2 customers and some customer was blocked while holding its server",
                      B(40000, 400000)))
-    register(Profile("C05", [C05], [(2, srv), (1, profile(ordinary_only=True, sched=0.5, prio=0.8, preempt=0.7, renege=0.5, cct=0.3, n=[1, 2, 3])),
+    register(Profile("C05", [C05, Ref], [(1, core), (2, srv), (1, profile(ordinary_only=True, sched=0.5, prio=0.8, preempt=0.7, renege=0.5, cct=0.3, n=[1, 2, 3])),
                                     (1, dict(kfa, ordinary_only=True, slot=0.0))],
                      "distinct history digest; non-trivial = >=1 customer waited and later started service",
                      B(40000, 400000)))
     order = profile(ordinary_only=True, k=[2, 2, 3], prio=0.85, preempt=0.4, disc=0.8, sched=0.25, sched_pre_opts=[False], ccm=0.3, cct=0.15,
                     qcap=0.4, batch=0.4, renege=0.2, inf=0.05, slot=0.0, ps=0.0, n=[1, 1, 2, 3])
-    register(Profile("C08", [C08], [(1, order)],
+    register(Profile("C08", [C08, Ref], [(1, core), (1, order)],
                      "distinct history digest; non-trivial = >=1 discipline decision among >=2 waiting customers of >=2 classes",
                      B(40000, 400000)))
     rout = profile(n=[2, 2, 3, 4], route_kinds={"matrix": 0.25, "net": 0.45, "pb": 0.15, "fpb": 0.15}, ccm=0.4, cct=0.1, qcap=0.3,
                    jockey=0.0, ps=0.05, slot=0.05, **NOREROUTE)
     rout_b = dict(rout, f_boundary=0.05)
-    register(Profile("C09", [C09], [(2, rout), (1, rout_b)],
+    register(Profile("C09", [C09, Ref], [(1, core), (2, rout), (1, rout_b)],
                      "distinct history digest; non-trivial = >=1 routing decision checked (per-router-kind and unequal-queue JSQ/LB decision counters reported)",
                      B(40000, 400000)))
     samp = profile(preempt=0.0, sched_pre_opts=[False], tdep=0.5, batch=0.5, exact=0.15, n=[1, 2, 2, 3], slot=0.1, ps=0.05)
-    register(Profile("C10", [C10], [(3, samp), (1, dict(samp, f_bad=1.0)), (1, dict(kfa, tdep=0.5, batch=0.5))],
+    register(Profile("C10", [C10, Ref], [(1, core), (3, samp), (1, dict(samp, f_bad=1.0)), (1, dict(kfa, tdep=0.5, batch=0.5))],
                      "distinct history digest; non-trivial = >=3 arrivals on one stream and >=1 completed service audited against its sample "
                      "(F5 sub-profile: one invalid sample planted per run; counters F5:planted/served/raised reported)",
                      B(40000, 400000), post=plant_bad_sample))
@@ -242,7 +248,7 @@ def _load():
                      B(30000, 300000)))
     pat = profile(renege=0.8, jockey=0.5, baulk=0.6, prio=0.5, preempt=0.3, sched=0.25, qcap=0.4, syscap=0.2, n=[1, 2, 2, 3], ps=0.03, slot=0.05,
                   route_kinds={"matrix": 0.3, "net": 0.6, "pb": 0.1, "fpb": 0.0}, f_boundary=0.05)
-    register(Profile("C13", [C13], [(5, pat), (1, dict(kfa, renege=0.8, baulk=0.5, f_boundary=0.05))],
+    register(Profile("C13", [C13, Ref], [(1, core), (5, pat), (1, dict(kfa, renege=0.8, baulk=0.5, f_boundary=0.05))],
                      "distinct history digest; non-trivial = >=1 renege or >=1 baulking decision with 0 < p < 1",
                      B(40000, 400000)))
     trk = profile(tracker=1.0, qcap=0.6, ccm=0.4, cct=0.25, renege=0.3, preempt=0.4, n=[1, 2, 2, 3], k=[1, 2, 2, 3], exact=0.05)
@@ -283,7 +289,7 @@ def _load():
                      "continuous sub-profile: exact run vs floating-point twin within 10^-(k-3)",
                      B(20000, 200000), post=keep_cont, runner=run_c20))
     cap = profile(qcap=0.9, qcap_vals=[INF, 0, 0, 1, 2, 3], syscap=0.4, batch=0.5, baulk=0.4, renege=0.3, jockey=0.5, n=[1, 2, 2, 3], **NOREROUTE)
-    register(Profile("C06", [C06], [(1, cap)],
+    register(Profile("C06", [C06, Ref], [(1, dict(core, qcap=0.95, syscap=0.4, batch=0.5)), (1, cap)],
                      "distinct history digest; non-trivial = >=1 rejection and >=1 admission into a node holding capacity-1",
                      B(40000, 400000)))
     blk = profile(restricted=True, n=[2, 2, 3, 4], k=[1, 1, 2], preempt=0.0, sched=0.15, sched_pre_opts=[False], renege=0.1,
@@ -291,7 +297,7 @@ def _load():
                   route_kinds={"matrix": 0.5, "net": 0.4, "pb": 0.1, "fpb": 0.0})
     # pre-emptive priorities are not excluded by C07's quantifier; blocked customers must keep their server there too
     blk_pre = dict(blk, prio=0.9, preempt=0.9, k=[2, 2, 3], preempt_opts=["resume", "restart", "resample", False])
-    register(Profile("C07", [C07], [(3, blk), (1, blk_pre)],
+    register(Profile("C07", [C07, Ref], [(1, dict(core, qcap=1.0, n=[2, 2, 3, 4], qcap_vals=[0, 0, 1, 2, INF])), (3, blk), (1, blk_pre)],
                      "distinct history digest; non-trivial = >=1 blocking and >=1 unblocking (cascade depth probes reported)",
                      B(30000, 300000)))
 
